@@ -46,7 +46,7 @@ def gen_cases(tier, seed):
                                   "seed": env.subseed(seed, "c09far", fam, bi, pi, rep), "tier_": tier, "cost": 1})
             for ti, B in enumerate(TAILS):
                 for pi, ps in enumerate(PSCALES):
-                    K = [2, 3, 5, 8, 10, 4][(ti + pi + rep) % 6]
+                    K = [1, 2, 3, 5, 8, 10, 4][(ti + pi + rep) % 7]
                     cases.append({"family": fam, "box": None, "B": B, "bins": K, "pscale": ps,
                                   "world": ("f32" if (ti + rep) % 2 else "f64") if ps == "huge" else
                                   "f64" if (ti + pi + rep) % 4 or ps in (3.0, "extreme") else "f32",
